@@ -26,7 +26,9 @@ type Conf struct {
 	RespLimit  int    `json:"resp_limit"`
 	RespAction string `json:"resp_action"`
 	Mime       string `json:"mime"` // SecResponseBodyMimeType
-	DetOnly    bool   `json:"detection_only,omitempty"` // SecRuleEngine DetectionOnly: limits and rules only record, nothing may interrupt
+	// DetOnly: "directive" = SecRuleEngine DetectionOnly (NewWAF then turns Reject into ProcessPartial), "ctl" = SecRuleEngine On and
+	// ctl:ruleEngine=DetectionOnly in phase 1 (Reject stays): limits and rules only record, nothing may interrupt
+	DetOnly string `json:"detection_only,omitempty"`
 }
 
 const (
@@ -44,9 +46,12 @@ func onOff(b bool) string {
 // Directives renders the configuration.
 func (c Conf) Directives() string {
 	var sb strings.Builder
-	if c.DetOnly {
+	switch c.DetOnly {
+	case "directive":
 		sb.WriteString("SecRuleEngine DetectionOnly\n")
-	} else {
+	case "ctl":
+		sb.WriteString("SecRuleEngine On\nSecAction \"id:9,phase:1,pass,nolog,ctl:ruleEngine=DetectionOnly\"\n")
+	default:
 		sb.WriteString("SecRuleEngine On\n")
 	}
 	fmt.Fprintf(&sb, "SecRequestBodyAccess %s\n", onOff(c.ReqAccess))
